@@ -68,6 +68,35 @@ def runScenario (eps tolEps : Float) (ops : List String) : String := Id.run do
     | _ => outs := "bad-op" :: outs
   return " | ".intercalate outs.reverse
 
+/-! polynomial right-hand sides: terms `comp:coef:tpow:e0.e1...` separated by `;` -/
+structure Term where
+  comp : Nat
+  coef : Rat
+  tpow : Nat
+  exps : List Nat
+
+def parseTerm? (s : String) : Option Term :=
+  match s.splitOn ":" with
+  | [c, k, tp, es] => do
+      let c ← c.toNat?
+      let k ← parseRat? k
+      let tp ← tp.toNat?
+      let es ← if es == "" then some [] else (es.splitOn ".").mapM (·.toNat?)
+      pure { comp := c, coef := k, tpow := tp, exps := es }
+  | _ => none
+
+def polyRhs (n : Nat) (terms : List Term) (t : Rat) (y : List Rat) : List Rat :=
+  (List.range n).map (fun i =>
+    (terms.filter (·.comp == i)).foldl (fun acc tm =>
+      acc + tm.coef * t ^ tm.tpow * ((List.zip y tm.exps).foldl (fun p ye => p * ye.1 ^ ye.2) 1)) 0)
+
+def tabRat (K : Nat) (x : Int) : Rat := (x : Rat) / ((2 ^ K : Nat) : Rat)
+
+def chunks (n : Nat) (l : List Rat) : List (List Rat) :=
+  if n = 0 then [] else (List.range (l.length / n)).map (fun i => (l.drop (i * n)).take n)
+
+def showRats (l : List Rat) : String := showList showRat l
+
 def showList' (l : List Int) : String := "[" ++ showList toString l ++ "]"
 
 instance : Inhabited Rat := ⟨0⟩
@@ -156,6 +185,49 @@ def stepLine (line : String) : String :=
       let r := if kind == "s" then Brent.brentsroot f lo hi tol eps (1.0 / 0.0) else Brent.lane f lo hi tol eps
       s!"{showFloatBits r.root} {r.success} {r.iters} {showList showFloatBits r.trace}"
     | _, _, _, _ => bad
+  -- rkstep <method> <n> <terms> <t> <y> <h> <initial stages, flattened | -> : exact explicit RK step
+  | ["rkstep", name, n, terms, t, y, h, st0] =>
+    match Gen.allRK.find? (·.name == name), n.toNat?, parseList? parseTerm? (terms.replace ";" ","), parseRat? t,
+          parseList? parseRat? y, parseRat? h, parseList? parseRat? st0 with
+    | some T, some n, some terms, some t, some y, some h, some st0 =>
+      let A := T.A.map (·.map (tabRat T.K))
+      let c := T.c.map (tabRat T.K)
+      let b := (T.bs.headD []).map (tabRat T.K)
+      let s := T.c.length
+      let stages := if st0.isEmpty then List.replicate s (List.replicate n (0 : Rat)) else chunks n st0
+      let fsal := (T.A.getLast?.getD []) == (T.bs.headD [])
+      let ops := RK.listOpsN (α := Rat) n
+      let out := RK.rkStepExplicit ops (polyRhs n terms) t y h c A b fsal stages
+      let est := match T.bs with
+        | [b0, b1] => RK.errorEstimate ops (b0.map (tabRat T.K)) (b1.map (tabRat T.K)) out.stages
+        | _ => List.replicate n 0
+      s!"{showRats out.dState} {showRats out.finalRhs} {showRats out.stages.flatten} {showRats est} {fsal}"
+    | _, _, _, _, _, _, _ => bad
+  -- stageres <method> <n> <terms> <t> <y> <h> <stages flattened> : residual of the stage equations and the increment from given stages
+  | ["stageres", name, n, terms, t, y, h, st] =>
+    match Gen.allRK.find? (·.name == name), n.toNat?, parseList? parseTerm? (terms.replace ";" ","), parseRat? t,
+          parseList? parseRat? y, parseRat? h, parseList? parseRat? st with
+    | some T, some n, some terms, some t, some y, some h, some st =>
+      let A := T.A.map (·.map (tabRat T.K))
+      let c := T.c.map (tabRat T.K)
+      let b := (T.bs.headD []).map (tabRat T.K)
+      let ops := RK.listOpsN (α := Rat) n
+      let ks := chunks n st
+      let res := RK.stageResiduals ops (fun x y => List.zipWith (· - ·) x y) (polyRhs n terms) t y h c A ks
+      let mx := res.flatten.foldl (fun a r => let r := if r < 0 then -r else r; if a < r then r else a) 0
+      s!"{showRat mx} {showRats (ops.smul h (RK.wsum ops b ks))}"
+    | _, _, _, _, _, _, _ => bad
+  -- splitstep <method> <n> <kickmask 0/1,...> <terms> <t> <y> <h>
+  | ["splitstep", name, n, mask, terms, t, y, h] =>
+    match Gen.allSplit.find? (·.name == name), n.toNat?, parseList? (·.toNat?) mask, parseList? parseTerm? (terms.replace ";" ","),
+          parseRat? t, parseList? parseRat? y, parseRat? h with
+    | some T, some n, some mask, some terms, some t, some y, some h =>
+      let ops := RK.listOpsN (α := Rat) n
+      let mm : Rat → Rat → List Rat → List Rat := fun a b v =>
+        List.zipWith (fun x m => x * (if m == 1 then b else a)) v mask
+      let out := RK.splitStep ops (polyRhs n terms) mm t y h (T.drift.map (tabRat T.K)) (T.kick.map (tabRat T.K))
+      s!"{showRats out.1} {showRat out.2}"
+    | _, _, _, _, _, _, _ => bad
   -- counters c1,c0,ju1,jf9:1,r : the counter model
   | ["counters", ops] =>
     let parse (t : String) : Option Counters.Op :=
